@@ -760,6 +760,15 @@ func TestC12(t *testing.T) {
 		}
 	})
 	rec.Exhaustive("scripts")
+	hugeN := []uint{^uint(0), ^uint(0) - 1, 1 << 63, 1<<63 - 1, 1 << 62}
+	rec.Suite("huge-budgets", len(hugeN)*3, func(c *ev.Case) {
+		b, at := hugeN[c.I%len(hugeN)], 1+c.I/len(hugeN)
+		c.Class("huge-budget/%d/answers-cer=%d", c.I%len(hugeN), at)
+		leak := runBubbleWD(t, rec, c, 60*time.Second, func() { runHugeBudget(c, ctx, "C12", b, at, 1, false) })
+		if leak != "" && !c.Failed() {
+			c.Fail(ev.Sig{"op": "bubble-leak"}, nil, nil, "goroutines left blocked: %s", leak)
+		}
+	})
 	rec.Suite("dial-entry-points", 10*rec.N(1, 20), func(c *ev.Case) {
 		entry := c.I % 10
 		c.Class("dial-entry/%d", entry)
